@@ -105,6 +105,17 @@ def oracle_model(getter, rng, tier_quick, notes):
             tot = integrate.dblquad(lambda tz, hs: float(tm.pdf(np.array([[hs, tz]]))[0]), 1e-3, 25, 0.5, 40, epsabs=1e-5)[0]
         if abs(tot - 1) > 5e-3:
             return ({"clause": "integral", "getter": getter}, "pdf integrates to %r" % tot)
+    # a model with random_state set reproduces its Monte-Carlo quantiles exactly, call after call (as IFORMContour uses them)
+    pq, gq = np.array([0.3, 0.95]), np.array([1.0, 2.5])
+    with warnings.catch_warnings():
+        warnings.simplefilter("ignore")
+        q1 = tm.conditional_icdf(pq, 1, gq, precision_factor=tm.precision_factor, random_state=tm.random_state)
+        q2 = tm.conditional_icdf(pq, 1, gq, precision_factor=tm.precision_factor, random_state=tm.random_state)
+        tm_b, _ = make_tm(getter)
+        q3 = tm_b.conditional_icdf(pq, 1, gq, precision_factor=tm_b.precision_factor, random_state=tm_b.random_state)
+    if not (np.array_equal(q1, q2) and np.array_equal(q1, q3)):
+        return ({"clause": "seed", "getter": getter, "what": "conditional_icdf"},
+                "conditional quantiles of a model with random_state set are not reproduced: %r, then %r, fresh model %r" % (q1.tolist(), q2.tolist(), q3.tolist()))
     # Monte-Carlo conditional sample vs the conditional density (DKW, error probability 1e-12)
     n = 20000
     eps = math.sqrt(math.log(2 / 1e-12) / (2 * n))
